@@ -688,6 +688,8 @@ class AHands(Native):
     def __init__(self, board, copy_of=None):
         self.board, self.copy_of = board, copy_of
         self.consumed_by = None
+        # a copy taken from a deal the play engine has already (partly) consumed does not hold the configured cards any more
+        self.stale = copy_of is not None and (copy_of.consumed_by is not None or getattr(copy_of, 'stale', False))
 
     def __getitem__(self, player):
         return AHand(self.board, player, self)
